@@ -23,7 +23,8 @@ import tempfile
 import time
 import types
 
-VERIF = os.path.dirname(os.path.dirname(os.path.abspath(__file__)))
+HERE_HARNESS = os.path.dirname(os.path.abspath(__file__))
+VERIF = os.path.dirname(HERE_HARNESS)
 REPO = os.environ.get('VERIF_REPO', '/repo')
 SPEC = os.path.join(VERIF, 'spec')
 EVIDENCE = os.path.join(VERIF, 'evidence')
